@@ -482,7 +482,7 @@ func Main(argv []string) error {
 	fs.Int64Var(&cfg.MaxSteps, "max-steps", 5_000_000, "instruction budget per path")
 	fs.IntVar(&cfg.MaxDepth, "max-depth", 400, "call depth limit")
 	fs.IntVar(&cfg.ConcMax, "conc-max", 4, "largest value a symbolic index/length is forked to")
-	fs.IntVar(&cfg.SolverTimeoutMs, "solver-timeout", 20000, "per-query timeout (ms)")
+	fs.IntVar(&cfg.SolverTimeoutMs, "solver-timeout", 60000, "per-query timeout (ms)")
 	fs.BoolVar(&cfg.AdversarialMapOrder, "map-order", false, "fork over map iteration orders")
 	fs.StringVar(&cfg.Solver, "solver", "z3", "solver binary (z3 | z3-new | cvc5)")
 	fs.StringVar(&cfg.Out, "out", "", "result json")
